@@ -11,9 +11,9 @@ Program (JSON, one line):  {"prog": [stmt...], "sched": [int...], "wrap": bool}
           returns the task's coroutine the second time – the spawn fails (event spawnerr), nothing may be started)
         | ["block", "async"|"sync"|"upd", b, [[ty, tag]...], [disp...], [stmt...]]
         | ["dprobe", n]    lookups with an explicit default (`ctx.state(T, default=X)`) for every type of the family
-        | ["reenter", b]   the scope / update object of block b, which this task has already left, is used for a second
+        | ["reenter", b]   the scope / update object of block b, which this task (or another one) has already left or is still inside, is used for a second
                            `with` (events repre / reentered / refail / repost): refused or not, the surrounding context
-                           must be what it was
+                           must be what it was; `["reenter", b, g]`: a second use of a sync scope / update object waits on gate g inside
         | ["hold", b]      the scope object of the (async/sync) block b is constructed *here* (`cm = ctx.scope(...)`) and only
                            entered where the block statement stands – later in the same task, possibly in another context
  disp ::= [d, enterScript, exitScript, [[ty, tag]...]]      script ::= "ok" | "raise" | ["wait", g] | "swallow" | "reraise"
@@ -105,7 +105,11 @@ def gen_program(rng, depth, ids, allow_spawn=True, p_disp=0.5, p_raise=0.07, p_f
         elif r < 0.50:
             stmts.append(["try", gen_program(rng, depth - 1, ids, allow_spawn, p_disp, p_raise, p_fault)])
         elif r < 0.515 and ids["block"] > 0:
-            stmts.append(["reenter", rng.randint(1, ids["block"])])
+            st_ = ["reenter", rng.randint(1, ids["block"])]
+            if rng.random() < 0.3:
+                ids["gate"] += 1
+                st_.append(ids["gate"])      # the second use waits inside (overlapping, not nested, use of one object)
+            stmts.append(st_)
         elif r < 0.525:
             ids["probe"] += 1
             stmts.append(["dprobe", ids["probe"]])
@@ -472,20 +476,32 @@ class Run:
                 self.ev(t, "dprobe", st[1], ",".join(vals))
             elif k == "reenter":
                 cm = self.used.get((t, st[1]))
+                if cm is None:
+                    # ... or the object another task made for that block (handed over through a queue, a closure, a registry):
+                    # while that task is inside it, or after it left
+                    cm = next((c_ for (_tt, bb), c_ in self.used.items() if bb == st[1]), None)
                 blk = self.blocks.get(st[1])
                 if cm is None or blk is None:
                     continue
                 self.ev(t, "repre", st[1], self.fingerprint())
+                inside = False
                 try:
                     if blk[1] == "async":
                         async with cm:
                             self.ev(t, "reentered", st[1])
                     else:
                         with cm:
+                            inside = True
                             self.ev(t, "reentered", st[1])
+                            if len(st) > 2:
+                                # stays inside: the other user of the object may leave first
+                                await self.exec(t, [["await", st[2]]])
                     self.ev(t, "refail", st[1], "ok")
                 except BaseException as e:  # noqa: BLE001
                     self.ev(t, "refail", st[1], out_name(e))
+                    if inside:      # not a refusal: what happened to the body of the second use (a cancellation at the gate)
+                        self.ev(t, "repost", st[1], self.fingerprint())
+                        raise
                 self.ev(t, "repost", st[1], self.fingerprint())
             elif k == "hold":
                 blk = self.blocks.get(st[1])
@@ -498,6 +514,9 @@ class Run:
                 _, kind, b, sup, disps, body = st
                 insts = [F[i](v=tag) for i, tag in sup]
                 body_exc = None
+                # `["raise", "stopiter"]` as the last statement of a body: the body ends with a StopIteration (`next()` on an
+                # exhausted iterator); the block statement itself stands in a try that catches it (directed cases only)
+                stop_tail = bool(body) and body[-1] == ["raise", "stopiter"]
                 self.ev(t, "pre", b, self.fingerprint())
                 try:
                     if kind == "async":
@@ -510,7 +529,10 @@ class Run:
                             self.note_group(b)
                             self.ev(t, "enter", b)
                             try:
-                                await self.exec(t, body)
+                                await self.exec(t, body[:-1] if stop_tail else body)
+                                if stop_tail:
+                                    self.ev(t, "raise", "stopiter")
+                                    raise StopIteration("body")     # raised in this very frame (it cannot cross a coroutine frame)
                             except BaseException as e:
                                 body_exc = e
                                 self.ev(t, "bodyend", b, out_name(e), self.pending_cancel())
@@ -524,7 +546,10 @@ class Run:
                         with cm:
                             self.ev(t, "enter", b)
                             try:
-                                await self.exec(t, body)
+                                await self.exec(t, body[:-1] if stop_tail else body)
+                                if stop_tail:
+                                    self.ev(t, "raise", "stopiter")
+                                    raise StopIteration("body")     # raised in this very frame (it cannot cross a coroutine frame)
                             except BaseException as e:
                                 body_exc = e
                                 self.ev(t, "bodyend", b, out_name(e), self.pending_cancel())
@@ -536,7 +561,10 @@ class Run:
                         with cm:
                             self.ev(t, "enter", b)
                             try:
-                                await self.exec(t, body)
+                                await self.exec(t, body[:-1] if stop_tail else body)
+                                if stop_tail:
+                                    self.ev(t, "raise", "stopiter")
+                                    raise StopIteration("body")     # raised in this very frame (it cannot cross a coroutine frame)
                             except BaseException as e:
                                 body_exc = e
                                 self.ev(t, "bodyend", b, out_name(e), self.pending_cancel())
@@ -546,6 +574,9 @@ class Run:
                     self.ev(t, "left", b, out_name(e), 1 if e is body_exc else 0, self.alive(), reach_tags(e),
                             e.args[0] if isinstance(e, (Boom, BaseBoom)) and e.args and isinstance(e.args[0], str) else "-")
                     self.ev(t, "post", b, self.fingerprint())
+                    if stop_tail:
+                        self.ev(t, "caught", out_name(e))
+                        continue
                     raise
                 self.ev(t, "left", b, "ok", 1, self.alive())
                 self.ev(t, "post", b, self.fingerprint())
